@@ -211,7 +211,10 @@ func (cj *CookieJar) parseCookiesFromResp(host, path []byte, resp *fasthttp.Resp
 
 		_ = c.ParseBytes(value) //nolint:errcheck // ignore error
 		if c.Expire().Equal(fasthttp.CookieExpireUnlimited) || c.Expire().After(now) {
-			cookies = append(cookies, c)
+			if created {
+				// a cookie that is already stored was updated in place
+				cookies = append(cookies, c)
+			}
 		} else if created {
 			fasthttp.ReleaseCookie(c)
 		}
